@@ -283,4 +283,46 @@ theorem copyArrays_ids_ge (l : List Arr) : ∀ n x, x ∈ (copyArrays n l).map (
     · omega
     · have := ih _ x h; omega
 
+/-- like `obs_copyBonds`, for bonds re-targeted into a part `new` of a longer atom list `pre ++ new` -/
+theorem obs_copyBonds_shift (root : Nat) (pre old new : List Nat) (hl : old.length = new.length)
+    (hn : (pre ++ new).Nodup) (l : List BondO) (he : ∀ b ∈ l, b.a1 ∈ old ∧ b.a2 ∈ old) : ∀ n,
+    (copyBonds repaired root old new n l).map (obsBond root (pre ++ new)) =
+      l.map (fun b => { obsBondT old b with e1 := old.idxOf b.a1 + pre.length, e2 := old.idxOf b.a2 + pre.length }) := by
+  have hnn : new.Nodup := (List.nodup_append.mp hn).2.1
+  have key : ∀ x, x ∈ old → (pre ++ new).idxOf (mapAtom old new x) = old.idxOf x + pre.length := by
+    intro x hx
+    have hi := idxOf_mapAtom hl hnn x (Or.inl hx)
+    have hm : mapAtom old new x ∈ new := by
+      unfold mapAtom
+      have hlt : old.idxOf x < new.length := hl ▸ List.idxOf_lt_length_of_mem hx
+      rw [List.getElem?_eq_getElem hlt, Option.getD_some]
+      exact List.getElem_mem hlt
+    have hnp : mapAtom old new x ∉ pre := fun hp => (List.nodup_append.mp hn).2.2 _ hp _ hm rfl
+    rw [List.idxOf_append, if_neg hnp, hi]
+  induction l with
+  | nil => intro n; rfl
+  | cons b l ih =>
+    intro n
+    simp only [copyBonds, List.map_cons]
+    rw [ih (fun x hx => he x (List.mem_cons_of_mem _ hx))]
+    congr 1
+    have hb := he b (List.mem_cons_self)
+    simp [obsBond, obsBondT, copyBond, repaired, box_strip_renum, key _ hb.1, key _ hb.2]
+
+theorem copyAtoms_ids_lt (fl : Flags) (root : Nat) (l : List AtomO) : ∀ n x,
+    x ∈ (copyAtoms fl root n l).map (·.id) → x < n + atomsSize l := by
+  induction l with
+  | nil => intro n x h; simp [copyAtoms] at h
+  | cons a l ih =>
+    intro n x h
+    simp only [copyAtoms, List.map_cons, List.mem_cons] at h
+    simp only [atomsSize, List.map_cons, List.sum_cons]
+    rcases h with h | h
+    · simp only [copyAtom] at h
+      simp only [AtomO.size, Box.size]
+      omega
+    · have := ih _ x h
+      simp only [atomsSize] at this
+      omega
+
 end Molli.Lemmas.Heap
